@@ -537,14 +537,23 @@ func runRow(t *testing.T, r *row) {
 	for _, p := range started {
 		isRoot[p] = true
 	}
-	sidecars, uploaders, nested, launched, rootsLogged := 0, 0, 0, 0, 0
+	// A process launched by startChild is recognised by HOW it was launched (its
+	// argument), not by what it believes to be: it must find GO_TELEMETRY_CHILD=1
+	// in its environment whatever the application inherited (os/exec keeps the
+	// last of several entries of one name).
+	sidecars, uploaders, nested, unmarked, launched, rootsLogged := 0, 0, 0, 0, 0, 0
 	for _, e := range entries {
 		if len(e.Lineage) == 0 {
 			rootsLogged++
 			continue
 		}
 		launched++
-		if e.Marker == "1" {
+		asSidecar := e.Args == "** telemetry **"
+		switch {
+		case asSidecar:
+			if e.Marker != "1" {
+				unmarked++
+			}
 			if len(e.Lineage) == 1 && isRoot[e.Lineage[0]] {
 				sidecars++
 				if e.Upvar == "1" {
@@ -553,6 +562,9 @@ func runRow(t *testing.T, r *row) {
 			} else {
 				nested++
 			}
+		case e.Marker == "1":
+			// not launched as a sidecar but believes to be one (inherited marker)
+			nested++
 		}
 	}
 	changed := []string{}
@@ -614,7 +626,7 @@ func runRow(t *testing.T, r *row) {
 		}
 	}
 	rec := rt.M{"kind": r.Kind, "id": r.ID, "marker": r.Marker, "crash": r.Crash, "upload": r.Upload, "mode": r.Mode, "token": r.Token,
-		"localOK": r.LocalOK, "sidecars": sidecars, "uploaders": uploaders, "nested": nested, "launched": launched,
+		"localOK": r.LocalOK, "sidecars": sidecars, "uploaders": uploaders, "nested": nested, "unmarked": unmarked, "launched": launched,
 		"acquired": acquired, "wrote": wrote, "tokenBefore": tokenBefore, "tokenAfter": tokenAfter, "changed": changed,
 		"entries": entries, "rootExit": rootExit, "returned": returned, "guards": guards, "timedOut": timedOut,
 		"rootsLogged": rootsLogged, "n": n, "processes": len(exits), "fatal": rootExit != 0 && rootExit != -2}
